@@ -242,7 +242,7 @@ def main_check(argv):
     try:
         facts = Facts(extract.facts_dir())
         extract_floor_check(facts)
-        run, ev, violations, known_hits, lines = run_property(prop, tier, facts, seed=seed)
+        run, ev, violations, known_hits, lines = run_property(prop, tier, facts, seed=seed, write=not os.environ.get("XSV_NO_EVIDENCE"))
         extra_rc = 0
         if tier == "thorough":
             from . import thorough
@@ -252,9 +252,10 @@ def main_check(argv):
         print("CHECKER-ERROR property=%s: %s" % (prop, e))
         return 2
     ev["wall_s"] = round(time.time() - t0, 3)
-    os.makedirs(EVIDENCE_DIR, exist_ok=True)
-    with open(evpath, "w") as fh:
-        json.dump(ev, fh, indent=1)
+    if not os.environ.get("XSV_NO_EVIDENCE"):
+        os.makedirs(EVIDENCE_DIR, exist_ok=True)
+        with open(evpath, "w") as fh:
+            json.dump(ev, fh, indent=1)
     for l in lines:
         print(l)
     c = ev["coverage"]
